@@ -38,6 +38,19 @@ def describe(v, depth=0):
         return f"<undescribable {type(v).__name__}: {ex}>"
 
 
+def _module_globals(case):
+    """Globals of the module the call expression is written against (the callee's module unless stated)."""
+    cand = [case.module] if case.module is not None else []
+    parts = case.func.split(".")
+    cand += [".".join(parts[:i]) for i in range(len(parts), 0, -1)]
+    for c in cand:
+        try:
+            return vars(importlib.import_module("inscripta.biocantor." + c if c else "inscripta.biocantor"))
+        except Exception:
+            continue
+    return {}
+
+
 def eval_case(case, prims):
     from pyvc.sources import NativeSource, Skip
     S = NativeSource(prims)
@@ -50,7 +63,7 @@ def eval_case(case, prims):
     env = dict(inp.__dict__)
     out = {"skip": False}
     try:
-        r = eval(case.call, {}, env)
+        r = eval(case.call, dict(_module_globals(case)), env)
         if isinstance(r, types.GeneratorType):
             r = list(r)
         outcome = "return"
